@@ -99,6 +99,18 @@ func genC16(rng *rand.Rand, n int, emit func(Case), dist map[string]int) {
 			g.Use(middleware.StaticWithConfig(middleware.StaticConfig{Root: "root", Filesystem: c16HTTPFS{http.Dir(base), &opened}}))
 			g.GET("/*", func(c echo.Context) error { return echo.ErrNotFound })
 		}), "/g", 0},
+		{"Static middleware IgnoreBase+Browse, custom filesystem, Root=relative, on group /assets", mk(func(e *echo.Echo) {
+			g := e.Group("/assets")
+			g.Use(middleware.StaticWithConfig(middleware.StaticConfig{Root: "root", Filesystem: http.Dir(base), IgnoreBase: true, Browse: true}))
+		}), "/assets", 0},
+		{"Echo.Static /public -> root, then Group.Static /admin/files -> other (two registrations on one instance)", mk(func(e *echo.Echo) {
+			e.Static("/public", root)
+			e.Group("/admin").Static("/files", filepath.Join(base, "other"))
+		}), "/public", 0},
+		{"Echo.Static /public -> root (relative), then Echo.Static /more -> rootx (relative)", mk(func(e *echo.Echo) {
+			e.Static("/public", "root")
+			e.Static("/more", "rootx")
+		}), "/public", 0},
 		{"Echo.Static /static", mk(func(e *echo.Echo) { e.Static("/static", root) }), "/static", 0},
 		{"Echo.Static / relative", mk(func(e *echo.Echo) { e.Static("/", "root") }), "", 0},
 		{"Group.Static /grp/files", mk(func(e *echo.Echo) { e.Group("/grp").Static("/files", root) }), "/grp/files", 0},
@@ -175,6 +187,10 @@ func genC16(rng *rand.Rand, n int, emit func(Case), dist map[string]int) {
 		if rng.Intn(5) == 0 { // a clean path of an existing file
 			rel := []string{"/file.txt", "/sub/f.txt", "/sub/deep/x.txt", "/index.html", "/assets/a.css", "/secret2.txt", "/secret.txt", "/secret3.txt", "/f.txt"}[rng.Intn(9)]
 			target = cf.prefix + rel
+		}
+		if strings.Contains(cf.name, "IgnoreBase") && rng.Intn(2) == 0 {
+			// IgnoreBase acts when the last element of the path repeats the base of the route
+			target = strings.TrimRight(target, "/") + "/assets"
 		}
 		if strings.Contains(cf.name, "wildcard route /api/*") && rng.Intn(3) == 0 {
 			target = "/api/ping" // served by the route; the NEXT request on the recycled context must not inherit its path
